@@ -244,8 +244,13 @@ def check(rep, tier, seed):
                 continue
             nxt = next((x for x in h[i + 1:] if x["ev"] == "call"), None)
             cont = nxt is not None and not nxt["c"]["reset"] and not (isinstance(nxt["c"]["optp"], dict) and nxt["c"]["optp"])
+            p = e["post"]
+            if nxt is not None and not nxt["c"]["reset"] and isinstance(nxt["c"]["optp"], dict):
+                # staged optimisation: the call after the interruption gives an optimizer to a key that had none
+                added = tuple(sorted(k for k, v in nxt["c"]["optp"].items() if v["type"] != "none" and p["opt"][k]["type"] == "none"))
+                if added:
+                    out.add(("adds", e["kind"], added, tuple(p["opt"][k]["type"] for k in KEYS)))
             if cont:
-                p = e["post"]
                 out.add((e["kind"], tuple(p["opt"][k]["type"] for k in KEYS), tuple(p["sched"][k]["type"] for k in KEYS),
                          tuple(p["sched"][k]["e"] > 0 for k in KEYS)))
         return out
@@ -258,7 +263,7 @@ def check(rep, tier, seed):
             first.append(h)
         else:
             rest.append(h)
-    budget = 60 if quick else 1600
+    budget = 64 if quick else 1600
     hists = (first + rest)[: max(budget, len(first))] if not quick else (first[:budget] + rest[: max(0, budget - len(first))])
     rep.note("strata", {"distinct": len(need), "behaviours_chosen_for_strata": len(first)})
     rep.note("behaviours", {"enumerated_with_interruptions": total, "replayed": len(hists)})
